@@ -319,6 +319,8 @@ class Gen(object):
         r = self.rng
         if allow_bad and r.random() < 0.5:
             return shape[0] + r.randint(0, 2)
+        if any(n == 0 for n in shape):
+            return ['sl', None, None, None]
         ix = []
         nd = r.randint(1, len(shape))
         for ax in range(nd):
@@ -449,6 +451,32 @@ class Gen(object):
                 return ['s', num, exp] if -exp <= 10 else sp
             spec = to_s(spec)
         return {'op': 'cont_new', 'spec': spec}
+
+    def g_cfg_new(self):
+        r = self.rng
+        op = {'op': 'cfg_new', 'kw': self.modes()}
+        if r.random() < 0.6:
+            k, _ = self.pick(self.is_real)
+            if k is not None:
+                op['reg'] = k
+                op['field'] = r.choice(REG_FIELDS)
+        return op
+
+    def g_cfg_mutate(self):
+        if not self.w.configs:
+            return self.g_cfg_new()
+        f = self.rng.choice(['overflow', 'rounding', 'shifting', 'op_sizing', 'op_method'])
+        return {'op': 'cfg_mutate', 'c': self.rng.randrange(len(self.w.configs)), 'field': f,
+                'value': self.rng.choice(VALID[f])}
+
+    def g_new_cfg(self):
+        if not self.w.configs:
+            return self.g_cfg_new()
+        op = self.g_new()
+        op.pop('dtype', None)
+        op['kw'] = {}
+        op['cfg'] = self.rng.randrange(len(self.w.configs))
+        return op
 
     def g_cont_mutate(self):
         if not self.w.containers:
@@ -912,6 +940,10 @@ class Gen(object):
             add(2, self.g_new_tplkw, 'templates')
             add(2, self.g_new_cont, 'containers')
             add(2, self.g_cont_new, 'containers')
+            add(1, self.g_cfg_new, 'containers')
+            add(2, self.g_new_cfg, 'containers')
+            if 'F6' in F:
+                add(1, self.g_cfg_mutate, 'containers')
             add(3, self.g_deepcopy, 'derive_copy')
             add(4, self.g_like, 'derive_copy')
             add(2, self.g_unary, 'derive_arith')
@@ -1073,6 +1105,14 @@ class Gen(object):
         return {'op': 'template_clear'}
 
     def _next_op(self):
+        try:
+            return self._draw_op()
+        except Exception as e:      # a generator slip must not take the whole batch down
+            self.w.bump('generator_fallback')
+            self.w.bump('generator_fallback_' + type(e).__name__)
+            return {'op': 'new', 'val': ['i', 1], 'fmt': [True, 8, 2], 'kw': {}}
+
+    def _draw_op(self):
         if not self.cands():
             return self.g_new()
         t = getattr(self, '_table', None)
